@@ -111,6 +111,16 @@ func runC10(c *Ctx) {
 			}
 		}
 	}
+	// hand-made collections: criteria that are FHIR boolean ELEMENTS (true / false / absent), names whose
+	// later item has a multi-item `given`, extension URLs that are slash / prefix / case variants
+	hand := mustResource(`{"resourceType":"Patient","id":"h","active":false,"communication":[{"language":{"text":"a"},"preferred":false},{"language":{"text":"b"},"preferred":true},{"language":{"text":"c"}},{"language":{"text":"d"},"preferred":false}],
+	  "name":[{"given":["Ann"],"family":"A"},{"given":["Bea","Bo"],"family":"B"},{"family":"C"}],
+	  "extension":[{"url":"http://example.org/fhir/ext/a","valueString":"1"},{"url":"http://example.org/fhir/ext/a/","valueString":"2"},{"url":"http://example.org/fhir/ext/a/b","valueString":"3"},{"url":"HTTP://example.org/fhir/ext/a","valueString":"4"},{"url":"http://example.org/fhir/ext/a","valueString":"5"}]}`)
+	for _, p := range []string{"Patient.communication", "Patient.name", "Patient.extension", "Patient.communication.preferred", "Patient"} {
+		if o := compileEval(p, []fhir.Resource{hand}); o.Err == nil && !o.Panicked {
+			colls = append(colls, coll{"hand-made " + p, o.Coll, []fhir.Resource{hand}})
+		}
+	}
 	pat := mustResource(`{"resourceType":"Patient","id":"p"}`)
 	hn := func(f string) any { return mustElementHumanName(f) }
 	a1 := hn("A")
@@ -130,7 +140,7 @@ func runC10(c *Ctx) {
 	for i, e := range envs {
 		colls = append(colls, coll{fmt.Sprintf("%%e%d", i), e, []fhir.Resource{pat}})
 	}
-	crits := []string{"true", "false", "{}", "$this.exists()", "family.exists()", "use = 'official'", "given", "$this is HumanName", "1", "$this = 1", "system.exists()", "(true | false)"}
+	crits := []string{"true", "false", "{}", "$this.exists()", "family.exists()", "use = 'official'", "given", "$this is HumanName", "1", "$this = 1", "system.exists()", "(true | false)", "preferred", "active", "preferred.not()", "$this", "given.startsWith('A')", "url"}
 	type compiled struct {
 		src string
 		e   expr.Expression
@@ -214,6 +224,23 @@ func runC10(c *Ctx) {
 				c.Emit("select "+ltok, so, n > 0)
 			}
 			c.Count("crit:" + cr.src)
+			// direct laws on the per-item criterion values (t / f / - single items only)
+			clean := n > 0
+			allTrue, kept := true, 0
+			for _, o := range outs {
+				switch o {
+				case "t":
+					kept++
+				case "f", "-":
+					allTrue = false
+				default:
+					clean = false
+				}
+			}
+			if clean {
+				c.Law(boolOutE(al) == map[bool]string{true: "ok:t", false: "ok:f"}[allTrue], "C10/all-spec", "all(p) is true iff p is true for every item", cl.desc+".all("+cr.src+") with per-item criteria "+tok, boolOutE(al))
+				c.Law(w.Err == nil && !w.Panicked && len(w.Coll) == kept, "C10/where-spec", "where(p) keeps exactly the items for which p is true", cl.desc+".where("+cr.src+") with per-item criteria "+tok, fmt.Sprintf("%d items kept, want %d", len(w.Coll), kept))
+			}
 			// direct law: exists(p) = where(p).exists()
 			we := evalOn("where("+cr.src+").exists()", cl)
 			c.Law(boolOutE(ex) == boolOutE(we), "C10/exists-where", "exists(p) = where(p).exists()", cl.desc+" "+cr.src, boolOutE(ex)+" vs "+boolOutE(we))
@@ -404,12 +431,17 @@ func runC10(c *Ctx) {
 		}
 	}
 	// extension(u) = extension.where(url = u)
-	for k := 0; k < 40; k++ {
+	for k := 0; k < 41; k++ {
 		res, _ := g.GenValid(Pick(c.rng, []string{"Patient", "Observation", "Encounter"}), c)
+		urls := []string{"http://example.org/ext/a", "http://example.org/ext/b", "http://nope"}
+		if k == 40 {
+			res = hand
+			urls = []string{"http://example.org/fhir/ext/a", "http://example.org/fhir/ext/a/", "http://example.org/fhir/ext/a/b", "HTTP://example.org/fhir/ext/a", "http://example.org/fhir/ext", "http://example.org/fhir/ext/", ""}
+		}
 		if res == nil {
 			continue
 		}
-		for _, u := range []string{"http://example.org/ext/a", "http://example.org/ext/b", "http://nope"} {
+		for _, u := range urls {
 			for _, base := range []string{"", ".name", ".identifier", ".descendants()"} {
 				rt := string(res.ProtoReflect().Descriptor().Name())
 				l := compileEval(rt+base+".extension('"+u+"')", []fhir.Resource{res})
